@@ -289,8 +289,9 @@ def tokOf (seg word trSpace : List Cell) : Bool → List Act → List Cell
   | stripped, _ :: as => tokOf seg word trSpace stripped as
 
 /-- `scanLoop`, one iteration, as the replay of the execution of `loopChain`: `R.rest = rest` (and in
-text.go `R.state = state`, the statement right after it) happened iff it is in the log. -/
-def replayLoop {σ : Type} (o : σ → List Cell → Nat × Bool × σ) (width fuel : Nat)
+text.go `R.state = state`, the statement right after it) happened iff it is in the log; the long-word
+branch leaves the state `ini` (text.go: `s.state = -1`, F116 fix; richtext has no state). -/
+def replayLoop {σ : Type} (o : σ → List Cell → Nat × Bool × σ) (ini : σ) (width fuel : Nat)
     (rest : List Cell) (st : σ) (token : List Cell) (w : Nat) : Scan σ :=
   let r := o st rest
   let seg := rest.take r.1
@@ -303,13 +304,13 @@ def replayLoop {σ : Type} (o : σ → List Cell → Nat × Bool × σ) (width f
   match t.exit with
   | some .long =>
     let sp := splitLong width (!token.isEmpty) w word
-    .line (sp.2 ++ trSpace ++ rest') st (token ++ sp.1)
+    .line (sp.2 ++ trSpace ++ rest') ini (token ++ sp.1)
   | some _ => .line (if assigned then rest' else rest) (if assigned then r.2.2 else st) tok
-  | none => scanLoop o width fuel rest' r.2.2 tok t.w
+  | none => scanLoop o ini width fuel rest' r.2.2 tok t.w
 
-theorem scanLoop_eq_replay {σ : Type} (o : σ → List Cell → Nat × Bool × σ) (width fuel : Nat)
+theorem scanLoop_eq_replay {σ : Type} (o : σ → List Cell → Nat × Bool × σ) (ini : σ) (width fuel : Nat)
     (rest : List Cell) (st : σ) (token : List Cell) (w : Nat) :
-    scanLoop o width (fuel + 1) rest st token w = replayLoop o width fuel rest st token w := by
+    scanLoop o ini width (fuel + 1) rest st token w = replayLoop o ini width fuel rest st token w := by
   unfold replayLoop
   simp only [run_loopChain, loopOutcome]
   rw [scanLoop]
